@@ -51,10 +51,32 @@ def tokenize(s):
 class Parser:
     def __init__(self, text):
         self.text = text
-        self.toks = tokenize(text)
+        self.toks = self._strip_qualifiers(tokenize(text))
         self.i = 0
         self.nparam = 0
         self.names = {}
+
+    @staticmethod
+    def _strip_qualifiers(toks):
+        """`versions.version_id` with the statement's own (single) table as qualifier is the column `version_id`."""
+        table = None
+        for i, t in enumerate(toks[:-1]):
+            if t[0] == "id" and t[1].upper() in ("FROM", "INTO", "UPDATE") and toks[i + 1][0] == "id":
+                table = toks[i + 1][1]
+                break
+        if table is None:
+            return toks
+        out = []
+        i = 0
+        while i < len(toks):
+            if (i + 2 < len(toks) and toks[i][0] == "id" and toks[i][1].lower() == table.lower() and toks[i + 1] == ("op", ".")
+                    and toks[i + 2][0] == "id"):
+                out.append(toks[i + 2])
+                i += 3
+                continue
+            out.append(toks[i])
+            i += 1
+        return out
 
     def peek(self, k=0):
         return self.toks[self.i + k] if self.i + k < len(self.toks) else ("eof", "")
